@@ -413,8 +413,14 @@ func recAllTpls(c *chart.Chart, templates map[string]renderable, vals chartutil.
 	// copy that into the {{.Values}} for this template.
 	if c.IsRoot() {
 		next["Values"] = vals["Values"]
-	} else if vs, err := vals.Table("Values." + c.Name()); err == nil {
-		next["Values"] = vs
+	} else if parentVals, err := vals.Table("Values"); err == nil {
+		// The chart name is one key of the parent's values, even when it contains dots.
+		switch vs := parentVals[c.Name()].(type) {
+		case map[string]interface{}:
+			next["Values"] = chartutil.Values(vs)
+		case chartutil.Values:
+			next["Values"] = vs
+		}
 	}
 
 	for _, child := range c.Dependencies() {
